@@ -112,10 +112,15 @@ Section Inst.
       apply opt_att_eqb_false in Hne. rewrite Hne, Hk. left; reflexivity.
   Qed.
 
+  Lemma recreated_neq rp rq : recreated q rp rq = true -> rp <> rq.
+  Proof.
+    unfold recreated. intros H ->. rewrite !N.eqb_refl in H. discriminate.
+  Qed.
+
   Lemma in_diff_edges o :
     In o (diff_edges w p q) <->
     (exists e rp, nfind e (s_edges p) = Some rp /\ o = DeleteEdge w (e_from rp) e /\
-        (nfind e (s_edges q) = None \/ exists rq, nfind e (s_edges q) = Some rq /\ e_from rp <> e_from rq)) \/
+        (nfind e (s_edges q) = None \/ exists rq, nfind e (s_edges q) = Some rq /\ recreated q rp rq = true)) \/
     (exists e rq, nfind e (s_edges q) = Some rq /\ o = UpsertEdge w e (e_from rq) (e_to rq) (e_ty rq) /\
         nfind e (s_edges p) <> Some rq).
   Proof.
@@ -128,7 +133,7 @@ Section Inst.
         * destruct (erec_eqb rp rq) eqn:Er; [destruct Ho|].
           assert (rp <> rq) by (intros ->; rewrite (proj2 (erec_eqb_spec rq rq) eq_refl) in Er; discriminate).
           apply in_app_or in Ho. destruct Ho as [Ho|[<-|[]]].
-          -- destruct (N.eqb_spec (e_from rp) (e_from rq)); [destruct Ho|]. destruct Ho as [<-|[]].
+          -- destruct (recreated q rp rq) eqn:Erc; [|destruct Ho]. destruct Ho as [<-|[]].
              left. exists e, rp. split; [exact Ep|split; [reflexivity|]]. right. eauto.
           -- right. exists e, rq. split; [exact Hin|split; [reflexivity|]]. congruence.
         * destruct Ho as [<-|[]]. right. exists e, rq. split; [exact Hin|split; [reflexivity|]]. congruence.
@@ -137,8 +142,8 @@ Section Inst.
         * left. exists (e, rp). split; [apply (in_find_iff _ _ _ Bp), Ep|]. cbn [fst snd].
           apply nmem_false in Hn. rewrite Hn. left; reflexivity.
         * right. exists (e, rq). split; [apply (in_find_iff _ _ _ Bq), Eq|]. cbn [fst snd]. rewrite Ep.
-          destruct (erec_eqb rp rq) eqn:Er; [apply erec_eqb_spec in Er; subst; congruence|].
-          apply in_or_app. left. destruct (N.eqb_spec (e_from rp) (e_from rq)); [congruence|left; reflexivity].
+          destruct (erec_eqb rp rq) eqn:Er; [apply erec_eqb_spec in Er; apply recreated_neq in Hf; contradiction|].
+          apply in_or_app. left. rewrite Hf. left; reflexivity.
       + right. exists (e, rq). split; [apply (in_find_iff _ _ _ Bq), Eq|]. cbn [fst snd].
         destruct (nfind e (s_edges p)) as [rp|] eqn:Ep; [|left; reflexivity].
         destruct (erec_eqb rp rq) eqn:Er; [apply erec_eqb_spec in Er; subst; congruence|].
@@ -147,18 +152,22 @@ Section Inst.
 
   Lemma in_diff_edge_atts o :
     In o (diff_edge_atts w p q ska) <->
-    exists e, o = SetAtt (edge_beta w e) (nfind e (s_eatt q)) /\ nmem e (s_edges q) = true /\
-              nfind e (s_eatt p) <> nfind e (s_eatt q) /\ mem_key (edge_beta w e) ska = false.
+    exists e rq, o = SetAtt (edge_beta w e) (nfind e (s_eatt q)) /\ nfind e (s_edges q) = Some rq /\
+      (recreated_with_value p q e rq = true \/
+       (nfind e (s_eatt p) <> nfind e (s_eatt q) /\ mem_key (edge_beta w e) ska = false)).
   Proof.
     destruct Hq as (_ & Bq & _).
     unfold diff_edge_atts. rewrite in_flat_map. split.
-    - intros [[e r] [Hin Ho]]. cbn [fst snd] in Ho. apply (in_find_iff _ _ _ Bq) in Hin. exists e.
-      destruct (opt_eqb att_eqb _ _) eqn:E; [destruct Ho|]. apply opt_att_eqb_false in E.
-      destruct (mem_key _ ska) eqn:Ek; [destruct Ho|]. destruct Ho as [<-|[]].
-      repeat split; auto. apply nmem_true; eauto.
-    - intros [e (-> & Hm & Hne & Hk)]. apply nmem_true in Hm. destruct Hm as [r Hm].
-      exists (e, r). split; [apply (in_find_iff _ _ _ Bq), Hm|]. cbn [fst snd].
-      apply opt_att_eqb_false in Hne. rewrite Hne, Hk. left; reflexivity.
+    - intros [[e r] [Hin Ho]]. cbn [fst snd] in Ho. apply (in_find_iff _ _ _ Bq) in Hin. exists e, r.
+      destruct (recreated_with_value p q e r) eqn:Erw.
+      + rewrite !andb_false_r in Ho. destruct Ho as [<-|[]]. auto.
+      + rewrite !andb_true_r in Ho.
+        destruct (opt_eqb att_eqb _ _) eqn:E; [destruct Ho|]. apply opt_att_eqb_false in E.
+        destruct (mem_key _ ska) eqn:Ek; [destruct Ho|]. destruct Ho as [<-|[]]. auto.
+    - intros (e & r & -> & Hm & Hc). exists (e, r). split; [apply (in_find_iff _ _ _ Bq), Hm|]. cbn [fst snd].
+      destruct Hc as [Hrw|[Hne Hk]].
+      + rewrite Hrw, !andb_false_r. left; reflexivity.
+      + apply opt_att_eqb_false in Hne. rewrite Hne, Hk. cbn. left; reflexivity.
   Qed.
 End Inst.
 
@@ -167,29 +176,33 @@ End Inst.
 Lemma portal_of_spec a b w m o :
   portal_of a b (w, m) = Some o <->
   nmem w (st_insts a) = false /\
-  exists pk cs ty, snd m = Some pk /\ att_for_key b pk = Some (Descend w) /\
+  exists pk cs ty pw, snd m = Some pk /\ att_for_key b pk = Some (Descend w) /\
                    get_store b w = Some cs /\ nfind (fst m) (s_nodes cs) = Some ty /\
+                   validate_owner a pk = Ok pw /\
                    o = OpenPortal pk w (fst m) (Some ty).
 Proof.
   unfold portal_of. cbn [fst snd]. destruct (nmem w (st_insts a)).
   { split; [discriminate|intros [H _]; discriminate]. }
   destruct (snd m) as [pk|].
-  2:{ split; [discriminate|]. intros [_ (pk & cs & ty & H & _)]; discriminate. }
+  2:{ split; [discriminate|]. intros [_ (pk & cs & ty & pw & H & _)]; discriminate. }
   destruct (att_for_key b pk) as [[t d|w']|] eqn:Ea.
-  - split; [discriminate|]. intros [_ (pk' & cs & ty & H & H2 & _)]. inversion H; subst. congruence.
+  - split; [discriminate|]. intros [_ (pk' & cs & ty & pw & H & H2 & _)]. inversion H; subst. congruence.
   - destruct (N.eqb_spec w' w) as [->|Hne].
     + destruct (get_store b w) as [cs|].
       * destruct (nfind (fst m) (s_nodes cs)) as [ty|] eqn:En.
-        -- split.
-           ++ intros E; inversion E; subst. split; [reflexivity|]. exists pk, cs, ty. auto.
-           ++ intros [_ (pk' & cs' & ty' & H1 & H2 & H3 & H4 & ->)]. inversion H1; inversion H3; subst.
-              rewrite En in H4. inversion H4; subst. reflexivity.
-        -- split; [discriminate|]. intros [_ (pk' & cs' & ty' & H1 & H2 & H3 & H4 & _)].
+        -- destruct (validate_owner a pk) as [pw|e] eqn:Ev.
+           ++ split.
+              ** intros E; inversion E; subst. split; [reflexivity|]. exists pk, cs, ty, pw. auto 7.
+              ** intros [_ (pk' & cs' & ty' & pw' & H1 & H2 & H3 & H4 & _ & ->)]. inversion H1; inversion H3; subst.
+                 rewrite En in H4. inversion H4; subst. reflexivity.
+           ++ split; [discriminate|]. intros [_ (pk' & cs' & ty' & pw' & H1 & _ & _ & _ & H5 & _)].
+              inversion H1; subst. congruence.
+        -- split; [discriminate|]. intros [_ (pk' & cs' & ty' & pw' & H1 & H2 & H3 & H4 & _)].
            inversion H3; subst. congruence.
-      * split; [discriminate|]. intros [_ (pk' & cs' & ty' & H1 & H2 & H3 & _)]. discriminate.
-    + split; [discriminate|]. intros [_ (pk' & cs & ty & H & H2 & _)]. inversion H; subst.
+      * split; [discriminate|]. intros [_ (pk' & cs' & ty' & pw' & H1 & H2 & H3 & _)]. discriminate.
+    + split; [discriminate|]. intros [_ (pk' & cs & ty & pw & H & H2 & _)]. inversion H; subst.
       rewrite Ea in H2. inversion H2; subst. contradiction.
-  - split; [discriminate|]. intros [_ (pk' & cs & ty & H & H2 & _)]. inversion H; subst. congruence.
+  - split; [discriminate|]. intros [_ (pk' & cs & ty & pw & H & H2 & _)]. inversion H; subst. congruence.
 Qed.
 
 Lemma in_portal_ops a b o : nsorted (st_insts b) ->
@@ -292,7 +305,7 @@ Lemma portal_ops_shape a b o : nsorted (st_insts b) -> In o (portal_ops a b) ->
   exists k cw cr ty, o = OpenPortal k cw cr (Some ty).
 Proof.
   intros Hs H. apply (in_portal_ops a b o Hs) in H. destruct H as (w & m & _ & H).
-  apply portal_of_spec in H. destruct H as (_ & pk & cs & ty & _ & _ & _ & _ & ->). eauto.
+  apply portal_of_spec in H. destruct H as (_ & pk & cs & ty & pw & _ & _ & _ & _ & _ & ->). eauto.
 Qed.
 
 (* ------------------------------------------------------------------ per-constructor membership *)
@@ -342,7 +355,7 @@ Section PerOp.
         inversion E; subst. eauto.
       + apply (in_diff_node_atts w' _ _ _ Hq) in H. destruct H as (? & E & _); discriminate.
       + apply (in_diff_edges w' _ _ Hp Hq) in H. destruct H as [(? & ? & _ & E & _)|(? & ? & _ & E & _)]; discriminate.
-      + apply (in_diff_edge_atts w' _ _ _ Hq) in H. destruct H as (? & E & _); discriminate.
+      + apply (in_diff_edge_atts w' _ _ _ Hq) in H. destruct H as (? & ? & E & _); discriminate.
     - intros (q & Hg & H1 & H2 & H3). exists w, q. split; [exact Hg|].
       pose proof (bstore_sorted a w Ha) as Hp. pose proof (Struct_store _ _ _ Hb Hg) as Hq.
       apply in_diff_instance. left. apply (in_diff_nodes w _ _ _ Hp Hq). exists n. split; [exact H3|].
@@ -361,7 +374,7 @@ Section PerOp.
         inversion E; subst. eauto.
       + apply (in_diff_node_atts w' _ _ _ Hq) in H. destruct H as (? & E & _); discriminate.
       + apply (in_diff_edges w' _ _ Hp Hq) in H. destruct H as [(? & ? & _ & E & _)|(? & ? & _ & E & _)]; discriminate.
-      + apply (in_diff_edge_atts w' _ _ _ Hq) in H. destruct H as (? & E & _); discriminate.
+      + apply (in_diff_edge_atts w' _ _ _ Hq) in H. destruct H as (? & ? & E & _); discriminate.
     - intros (q & Hg & H1 & H2 & H3). exists w, q. split; [exact Hg|].
       pose proof (bstore_sorted a w Ha) as Hp. pose proof (Struct_store _ _ _ Hb Hg) as Hq.
       apply in_diff_instance. left. apply (in_diff_nodes w _ _ _ Hp Hq). exists n. split; [exact H3|].
@@ -380,7 +393,7 @@ Section PerOp.
       + apply (in_diff_node_atts w' _ _ _ Hq) in H. destruct H as (? & E & _); discriminate.
       + apply (in_diff_edges w' _ _ Hp Hq) in H. destruct H as [(? & ? & _ & E & _)|(e' & rq & H1 & E & H2)]; [discriminate|].
         inversion E; subst. exists q. destruct rq as [[f' t'] ty']. cbn in *. auto.
-      + apply (in_diff_edge_atts w' _ _ _ Hq) in H. destruct H as (? & E & _); discriminate.
+      + apply (in_diff_edge_atts w' _ _ _ Hq) in H. destruct H as (? & ? & E & _); discriminate.
     - intros (q & Hg & H1 & H2). exists w, q. split; [exact Hg|].
       pose proof (bstore_sorted a w Ha) as Hp. pose proof (Struct_store _ _ _ Hb Hg) as Hq.
       apply in_diff_instance. right; right; left. apply (in_diff_edges w _ _ Hp Hq). right.
@@ -390,7 +403,7 @@ Section PerOp.
   Lemma inD_delete_edge w f e :
     In (DeleteEdge w f e) D <->
     exists q rp, get_store b w = Some q /\ nfind e (s_edges (bstore a w)) = Some rp /\ e_from rp = f /\
-      (nfind e (s_edges q) = None \/ exists rq, nfind e (s_edges q) = Some rq /\ e_from rq <> f).
+      (nfind e (s_edges q) = None \/ exists rq, nfind e (s_edges q) = Some rq /\ recreated q rp rq = true).
   Proof.
     rewrite inD_instance by (intros; discriminate). split.
     - intros (w' & q & Hg & H). pose proof (bstore_sorted a w' Ha) as Hp. pose proof (Struct_store _ _ _ Hb Hg) as Hq.
@@ -399,21 +412,21 @@ Section PerOp.
       + apply (in_diff_node_atts w' _ _ _ Hq) in H. destruct H as (? & E & _); discriminate.
       + apply (in_diff_edges w' _ _ Hp Hq) in H. destruct H as [(e' & rp & H1 & E & H2)|(? & ? & _ & E & _)]; [|discriminate].
         inversion E; subst. exists q, rp. repeat split; auto.
-        destruct H2 as [H2|(rq & H2 & H3)]; [left; exact H2|right; exists rq; split; auto].
-      + apply (in_diff_edge_atts w' _ _ _ Hq) in H. destruct H as (? & E & _); discriminate.
+      + apply (in_diff_edge_atts w' _ _ _ Hq) in H. destruct H as (? & ? & E & _); discriminate.
     - intros (q & rp & Hg & H1 & <- & H2). exists w, q. split; [exact Hg|].
       pose proof (bstore_sorted a w Ha) as Hp. pose proof (Struct_store _ _ _ Hb Hg) as Hq.
       apply in_diff_instance. right; right; left. apply (in_diff_edges w _ _ Hp Hq). left.
-      exists e, rp. repeat split; auto. destruct H2 as [H2|(rq & H2 & H3)]; [left; exact H2|right; exists rq; split; auto].
+      exists e, rp. repeat split; auto.
   Qed.
 
   Lemma inD_set_att k v :
     In (SetAtt k v) D <->
-    exists w q, get_store b w = Some q /\ mem_key k (ska_of a b) = false /\
+    exists w q, get_store b w = Some q /\
       ((exists n, k = node_alpha w n /\ v = nfind n (s_natt q) /\ nmem n (s_nodes q) = true /\
-                  nfind n (s_natt (bstore a w)) <> v) \/
-       (exists e, k = edge_beta w e /\ v = nfind e (s_eatt q) /\ nmem e (s_edges q) = true /\
-                  nfind e (s_eatt (bstore a w)) <> v)).
+                  nfind n (s_natt (bstore a w)) <> v /\ mem_key k (ska_of a b) = false) \/
+       (exists e rq, k = edge_beta w e /\ v = nfind e (s_eatt q) /\ nfind e (s_edges q) = Some rq /\
+                  (recreated_with_value (bstore a w) q e rq = true \/
+                   (nfind e (s_eatt (bstore a w)) <> v /\ mem_key k (ska_of a b) = false)))).
   Proof.
     rewrite inD_instance by (intros; discriminate). split.
     - intros (w' & q & Hg & H). pose proof (bstore_sorted a w' Ha) as Hp. pose proof (Struct_store _ _ _ Hb Hg) as Hq.
@@ -421,15 +434,15 @@ Section PerOp.
       apply in_diff_instance in H. destruct H as [H|[H|[H|H]]].
       + apply (in_diff_nodes w' _ _ _ Hp Hq) in H. destruct H as (n' & Hsk & [(E & _)|(ty' & E & _)]); discriminate.
       + apply (in_diff_node_atts w' _ _ _ Hq) in H. destruct H as (n & E & H1 & H2 & H3). inversion E; subst.
-        split; [exact H3|]. left. exists n. auto.
+        left. exists n. auto.
       + apply (in_diff_edges w' _ _ Hp Hq) in H. destruct H as [(? & ? & _ & E & _)|(? & ? & _ & E & _)]; discriminate.
-      + apply (in_diff_edge_atts w' _ _ _ Hq) in H. destruct H as (e & E & H1 & H2 & H3). inversion E; subst.
-        split; [exact H3|]. right. exists e. auto.
-    - intros (w & q & Hg & Hk & Hc). exists w, q. split; [exact Hg|].
+      + apply (in_diff_edge_atts w' _ _ _ Hq) in H. destruct H as (e & rq & E & H1 & H2). inversion E; subst.
+        right. exists e, rq. auto.
+    - intros (w & q & Hg & Hc). exists w, q. split; [exact Hg|].
       pose proof (bstore_sorted a w Ha) as Hp. pose proof (Struct_store _ _ _ Hb Hg) as Hq.
-      apply in_diff_instance. destruct Hc as [(n & -> & -> & H1 & H2)|(e & -> & -> & H1 & H2)].
+      apply in_diff_instance. destruct Hc as [(n & -> & -> & H1 & H2 & H3)|(e & rq & -> & -> & H1 & H2)].
       + right; left. apply (in_diff_node_atts w _ _ _ Hq). exists n. auto.
-      + right; right; right. apply (in_diff_edge_atts w _ _ _ Hq). exists e. auto.
+      + right; right; right. apply (in_diff_edge_atts w _ _ _ Hq). exists e, rq. auto.
   Qed.
 
   Lemma inD_top o :
@@ -447,7 +460,7 @@ Section PerOp.
           destruct Hshape as [(? & ? & ? & ? & E)|[(? & E)|(? & ? & ? & E)]]; discriminate.
       + apply (in_diff_edges w' _ _ Hp Hq) in H. destruct H as [(? & ? & _ & E & _)|(? & ? & _ & E & _)]; subst;
           destruct Hshape as [(? & ? & ? & ? & E)|[(? & E)|(? & ? & ? & E)]]; discriminate.
-      + apply (in_diff_edge_atts w' _ _ _ Hq) in H. destruct H as (? & E & _); subst;
+      + apply (in_diff_edge_atts w' _ _ _ Hq) in H. destruct H as (? & ? & E & _); subst;
           destruct Hshape as [(? & ? & ? & ? & E)|[(? & E)|(? & ? & ? & E)]]; discriminate.
     - intros [H|[H|H]]; auto.
   Qed.
@@ -458,7 +471,7 @@ Section PerOp.
   Proof.
     rewrite inD_top by (left; eauto). rewrite (in_portal_ops a b _ (proj1 (proj2 Hb))). split.
     - intros [(w & m & Hg & Hp)|[H|H]]; [|kill_top Ha Hb|kill_top Ha Hb].
-      pose proof Hp as Hp'. apply portal_of_spec in Hp'. destruct Hp' as (_ & pk & cs & ty & _ & _ & _ & _ & E).
+      pose proof Hp as Hp'. apply portal_of_spec in Hp'. destruct Hp' as (_ & pk & cs & ty & pw & _ & _ & _ & _ & _ & E).
       inversion E; subst. eauto.
     - intros (m & Hg & Hp). left. eauto.
   Qed.
@@ -656,22 +669,6 @@ Proof.
   intros o' Hin'. apply H, sort_ops_in, Hin'.
 Qed.
 
-Lemma reparent_ok_spec a b : reparent_ok a b = true ->
-  forall w p q e rp rq, get_store a w = Some p -> get_store b w = Some q -> nsorted (st_stores b) -> nsorted (s_edges q) ->
-    nfind e (s_edges p) = Some rp -> nfind e (s_edges q) = Some rq -> e_from rp <> e_from rq ->
-    nfind e (s_eatt q) = None \/
-    (nfind e (s_eatt p) <> nfind e (s_eatt q) /\ mem_key (edge_beta w e) (ska_of a b) = false).
-Proof.
-  unfold reparent_ok. intros H w p q e rp rq Ga Gb Hs Hsq Ep Eq Hne.
-  rewrite forallb_forall in H. specialize (H (w, q) (nf_in _ _ _ Gb)). cbn [fst snd] in H. rewrite Ga in H.
-  unfold reparent_ok_store in H. rewrite forallb_forall in H. specialize (H (e, rq) (nf_in _ _ _ Eq)).
-  cbn [fst snd] in H. unfold reparented in H. rewrite Ep, Eq in H.
-  destruct (N.eqb_spec (e_from rp) (e_from rq)); [contradiction|]. cbn [negb orb] in H.
-  destruct (nfind e (s_eatt q)) eqn:Ev; [|left; reflexivity]. right.
-  apply andb_true_iff in H. destruct H as [H1 H2]. apply negb_true_iff in H1, H2.
-  split; [|exact H2]. apply opt_att_eqb_false in H1. exact H1.
-Qed.
-
 Lemma att_for_key_natt b k w n q : att_slot k = SNatt w n -> get_store b w = Some q ->
   att_for_key b k = nfind n (s_natt q).
 Proof.
@@ -706,9 +703,16 @@ Section Final.
     exists ty cs, i = Some ty /\ get_store b cw = Some cs /\ nfind cr (s_nodes cs) = Some ty.
   Proof.
     intros H. apply (inD_open_portal a b Ha Hb) in H. destruct H as (m & Hg & Hp).
-    apply portal_of_spec in Hp. destruct Hp as (Hn & pk & cs & ty & H1 & H2 & H3 & H4 & E).
+    apply portal_of_spec in Hp. destruct Hp as (Hn & pk & cs & ty & pw & H1 & H2 & H3 & H4 & _ & E).
     inversion E; subst. destruct m as [r p]; cbn in *. subst p.
     split; [apply nmem_false, Hn|]. split; [exact Hg|]. split; [exact H2|]. eauto.
+  Qed.
+
+  Lemma portal_owner_pre k cw cr i : In (OpenPortal k cw cr i) D -> exists pw, validate_owner a k = Ok pw.
+  Proof.
+    intros H. apply (inD_open_portal a b Ha Hb) in H. destruct H as (m & Hg & Hp).
+    apply portal_of_spec in Hp. destruct Hp as (Hn & pk & cs & ty & pw & H1 & H2 & H3 & H4 & H5 & E).
+    inversion E; subst. eauto.
   Qed.
 
   Lemma portal_child_unique k1 k2 cw cr1 cr2 i1 i2 :
@@ -833,14 +837,14 @@ Section Final.
         + apply portal_facts in Hin. destruct Hin as (_ & _ & H & _). apply att_slot_natt in Hk.
           destruct Hk as (_ & Hw & _). unfold att_for_key in H. rewrite Hw, Gb in H. discriminate.
         + apply (inD_delete_node a b Ha Hb) in Hin. destruct Hin as (q & H & _). congruence.
-        + apply (inD_set_att a b Ha Hb) in Hin. destruct Hin as (w' & q & H & _ & [(n' & -> & _)|(e' & -> & _)]).
+        + apply (inD_set_att a b Ha Hb) in Hin. destruct Hin as (w' & q & H & [(n' & -> & _)|(e' & rq' & -> & _)]).
           * apply att_slot_natt in Hk. cbn in Hk. destruct Hk as (_ & -> & _). congruence.
           * apply att_slot_natt in Hk. cbn in Hk. destruct Hk as (Hk & _). discriminate.
       - apply wr_eatt_inv in E. destruct E as [(k & cw & cr & ty & -> & Hk)|[->|[(f & ->)|(k & v & -> & Hk)]]]; auto; exfalso.
         + apply portal_facts in Hin. destruct Hin as (_ & _ & H & _). apply att_slot_eatt in Hk.
           destruct Hk as (_ & Hw & _). unfold att_for_key in H. rewrite Hw, Gb in H. discriminate.
         + apply (inD_delete_edge a b Ha Hb) in Hin. destruct Hin as (q & rp & H & _). congruence.
-        + apply (inD_set_att a b Ha Hb) in Hin. destruct Hin as (w' & q & H & _ & [(n' & -> & _)|(e' & -> & _)]).
+        + apply (inD_set_att a b Ha Hb) in Hin. destruct Hin as (w' & q & H & [(n' & -> & _)|(e' & rq' & -> & _)]).
           * apply att_slot_eatt in Hk. cbn in Hk. destruct Hk as (Hk & _). discriminate.
           * apply att_slot_eatt in Hk. cbn in Hk. destruct Hk as (_ & -> & _). congruence. }
     destruct sl as [w|w n|w e|w n|w e]; auto; cbn [slot_warp] in *.
@@ -943,7 +947,8 @@ Section Final.
           rewrite Gb in G. inversion G; subst. congruence.
         * apply (inD_delete_edge a b Ha Hb) in Hin. destruct Hin as (q' & rp & G & H1 & H2 & H3).
           rewrite Gb in G. inversion G; subst. rewrite Ea in H1. inversion H1; subst.
-          destruct H3 as [H3|(rq' & H3 & H4)]; [congruence|]. rewrite Eq in H3. inversion H3; subst. congruence.
+          destruct H3 as [H3|(rq' & H3 & H4)]; [congruence|]. rewrite Eq in H3. inversion H3; subst.
+          apply recreated_neq in H4. congruence.
       + assert (Hne : nfind e (s_edges (bstore a w)) <> Some rq).
         { intros H. rewrite H in Ea. cbn in Ea. rewrite (proj2 (erec_eqb_spec rq rq) eq_refl) in Ea. discriminate. }
         destruct rq as [[f t] ty].
@@ -1017,7 +1022,7 @@ Section Final.
               k = node_alpha w n /\ v = vb /\ nmem n (s_nodes q) = true /\ va <> vb /\
               mem_key (node_alpha w n) (ska_of a b) = false).
     { intros k v Hin Hk. apply (inD_set_att a b Ha Hb) in Hin.
-      destruct Hin as (w' & q' & G & Hsk & [(n' & -> & -> & H1 & H2)|(e' & -> & _)]).
+      destruct Hin as (w' & q' & G & [(n' & -> & -> & H1 & H2 & Hsk)|(e' & rq' & -> & _)]).
       - apply att_slot_natt in Hk. cbn in Hk. destruct Hk as (_ & -> & ->).
         rewrite Gb in G. inversion G; subst q'. auto.
       - apply att_slot_natt in Hk. cbn in Hk. destruct Hk as (Hk & _). discriminate. }
@@ -1046,7 +1051,7 @@ Section Final.
              ++ contradiction.
              ++ destruct (Hset _ _ Hin Hk) as (_ & _ & _ & _ & H). congruence.
         * apply (final_writer D _ _ (SetAtt (node_alpha w n) vb) (option_map VAtt vb)).
-          -- apply (inD_set_att a b Ha Hb). exists w, q. split; [exact Gb|]. split; [exact Esk|]. left.
+          -- apply (inD_set_att a b Ha Hb). exists w, q. split; [exact Gb|]. left.
              exists n. repeat split; auto.
           -- cbn [wr]. unfold att_slot; cbn. rewrite !N.eqb_refl. reflexivity.
           -- intros o' Hin E. apply wr_natt_inv in E.
@@ -1082,8 +1087,6 @@ Section Final.
       + rewrite final_stable; [rewrite La; reflexivity|]. rewrite La. exact Hall.
   Qed.
 
-  Hypothesis Hrep : reparent_ok a b = true.
-
   Lemma final_eatt w e : fold_wr (sort_ops D) (look a) (SEatt w e) = look b (SEatt w e).
   Proof.
     cbn [look slot_warp]. destruct (get_store b w) as [q|] eqn:Gb.
@@ -1096,100 +1099,81 @@ Section Final.
       unfold vb. rewrite Hv. cbn [option_map]. rewrite <- Hk. cbn [wr]. rewrite slot_eqb_refl.
       rewrite Hk. reflexivity. }
     assert (Hset : forall k v, In (SetAtt k v) D -> att_slot k = SEatt w e ->
-              k = edge_beta w e /\ v = vb /\ nmem e (s_edges q) = true /\ va <> vb /\
-              mem_key (edge_beta w e) (ska_of a b) = false).
+              k = edge_beta w e /\ v = vb /\ exists rq, nfind e (s_edges q) = Some rq /\
+              (recreated_with_value (bstore a w) q e rq = true \/
+               (va <> vb /\ mem_key (edge_beta w e) (ska_of a b) = false))).
     { intros k v Hin Hk. apply (inD_set_att a b Ha Hb) in Hin.
-      destruct Hin as (w' & q' & G & Hsk & [(n' & -> & _)|(e' & -> & -> & H1 & H2)]).
+      destruct Hin as (w' & q' & G & [(n' & -> & _)|(e' & rq' & -> & -> & H1 & H2)]).
       - apply att_slot_eatt in Hk. cbn in Hk. destruct Hk as (Hk & _). discriminate.
       - apply att_slot_eatt in Hk. cbn in Hk. destruct Hk as (_ & -> & ->).
-        rewrite Gb in G. inversion G; subst q'. auto. }
+        rewrite Gb in G. inversion G; subst q'. split; [reflexivity|]. split; [reflexivity|]. eauto. }
     assert (Hdel : forall f, wr (DeleteEdge w f e) (SEatt w e) = Some None).
     { intros f. cbn [wr]. rewrite slot_eqb_refl, orb_true_r. reflexivity. }
+    assert (Hwset : wr (SetAtt (edge_beta w e) vb) (SEatt w e) = Some (option_map VAtt vb)).
+    { cbn [wr]. unfold att_slot; cbn. rewrite !N.eqb_refl. reflexivity. }
     destruct (nfind e (s_edges q)) as [rq|] eqn:Eq.
     - (* the edge exists afterwards *)
-      assert (Hsetin : va <> vb -> mem_key (edge_beta w e) (ska_of a b) = false ->
+      assert (Hsetmax : In (SetAtt (edge_beta w e) vb) D ->
                 fold_wr (sort_ops D) (look a) (SEatt w e) = option_map VAtt vb).
-      { intros Hne Esk.
-        apply (final_writer D _ _ (SetAtt (edge_beta w e) vb) (option_map VAtt vb)).
-        - apply (inD_set_att a b Ha Hb). exists w, q. split; [exact Gb|]. split; [exact Esk|]. right.
-          exists e. repeat split; auto. apply nmem_true; eauto.
-        - cbn [wr]. unfold att_slot; cbn. rewrite !N.eqb_refl. reflexivity.
-        - intros o' Hin E. apply wr_eatt_inv in E.
-          destruct E as [(k' & cw' & cr' & ty' & -> & Hk)|[->|[(f' & ->)|(k' & v & -> & Hk)]]].
-          + split; [apply ople_kind; reflexivity|]. intros Hkk. apply key_eq_kind in Hkk. discriminate Hkk.
-          + exfalso. eapply delete_wi_absurd; eauto.
-          + split; [apply ople_kind; reflexivity|]. intros Hkk. apply key_eq_kind in Hkk. discriminate Hkk.
-          + destruct (Hset _ _ Hin Hk) as (-> & -> & _). split; [apply ople_refl|].
-            intros _. cbn [wr]. unfold att_slot; cbn. rewrite !N.eqb_refl. reflexivity. }
-      destruct (nfind e (s_edges (bstore a w))) as [rp|] eqn:Ep.
-      2:{ (* new edge: never deleted *)
-        assert (Hnd : forall f, ~ In (DeleteEdge w f e) D).
-        { intros f H. apply (inD_delete_edge a b Ha Hb) in H. destruct H as (q' & rp & _ & H & _). congruence. }
-        destruct (opt_eqb att_eqb va vb) eqn:Eab.
+      { intros HinS. apply (final_writer D _ _ (SetAtt (edge_beta w e) vb) (option_map VAtt vb)); [exact HinS|exact Hwset|].
+        intros o' Hin E. apply wr_eatt_inv in E.
+        destruct E as [(k' & cw' & cr' & ty' & -> & Hk)|[->|[(f' & ->)|(k' & v & -> & Hk)]]].
+        - split; [apply ople_kind; reflexivity|]. intros Hkk. apply key_eq_kind in Hkk. discriminate Hkk.
+        - exfalso. eapply delete_wi_absurd; eauto.
+        - split; [apply ople_kind; reflexivity|]. intros Hkk. apply key_eq_kind in Hkk. discriminate Hkk.
+        - destruct (Hset _ _ Hin Hk) as (-> & -> & _). split; [apply ople_refl|]. intros _. exact Hwset. }
+      destruct (recreated_with_value (bstore a w) q e rq) eqn:Erw.
+      { apply Hsetmax. apply (inD_set_att a b Ha Hb). exists w, q. split; [exact Gb|]. right.
+        exists e, rq. repeat split; auto. }
+      (* edges that are never deleted by the diff *)
+      assert (Hkeep : (forall f, ~ In (DeleteEdge w f e) D) ->
+                fold_wr (sort_ops D) (look a) (SEatt w e) = option_map VAtt vb).
+      { intros Hnd. destruct (opt_eqb att_eqb va vb) eqn:Eab.
         - apply opt_att_eqb_spec in Eab. rewrite final_stable; [rewrite La; fold va; rewrite Eab; reflexivity|].
           intros o Hin. destruct (not_none_dec (wr o (SEatt w e))) as [E|E]; [left; exact E|right].
           apply wr_eatt_inv in E. destruct E as [(k & cw & cr & ty & -> & Hk)|[->|[(f & ->)|(k & v & -> & Hk)]]].
           + rewrite (Hport _ _ _ _ Hin Hk), La. fold va. rewrite Eab. reflexivity.
           + exfalso. eapply delete_wi_absurd; eauto.
           + exfalso. eapply Hnd; eauto.
-          + destruct (Hset _ _ Hin Hk) as (_ & _ & _ & H & _). contradiction.
-        - apply opt_att_eqb_false in Eab. destruct (mem_key (edge_beta w e) (ska_of a b)) eqn:Esk; [|auto].
-          pose proof (mem_key_true _ _ Esk) as Esk'. apply in_skip_atts in Esk'. destruct Esk' as (cw & cr & i & Hp).
-          apply portal_in_pops in Hp. pose proof (portal_facts _ _ _ _ Hp) as (_ & _ & _ & ty & cs & -> & _).
-          apply (final_const D _ _ _ (OpenPortal (edge_beta w e) cw cr (Some ty))).
-          + exact Hp.
-          + apply Hport; [exact Hp|reflexivity].
-          + intros o Hin. destruct (not_none_dec (wr o (SEatt w e))) as [E|E]; [left; exact E|right].
-            apply wr_eatt_inv in E. destruct E as [(k' & cw' & cr' & ty' & -> & Hk)|[->|[(f & ->)|(k' & v & -> & Hk)]]].
-            * apply Hport; assumption.
-            * exfalso. eapply delete_wi_absurd; eauto.
-            * exfalso. eapply Hnd; eauto.
-            * destruct (Hset _ _ Hin Hk) as (_ & _ & _ & _ & H). congruence. }
-      destruct (N.eqb_spec (e_from rp) (e_from rq)) as [Hsame|Hdiff].
-      + (* kept in its source bucket: never deleted *)
-        assert (Hnd : forall f, ~ In (DeleteEdge w f e) D).
-        { intros f H. apply (inD_delete_edge a b Ha Hb) in H. destruct H as (q' & rp' & G & H1 & H2 & H3).
-          rewrite Gb in G. inversion G; subst q'. rewrite Ep in H1. inversion H1; subst rp'.
-          destruct H3 as [H3|(rq' & H3 & H4)]; [congruence|]. rewrite Eq in H3. inversion H3; subst. congruence. }
-        destruct (opt_eqb att_eqb va vb) eqn:Eab.
-        * apply opt_att_eqb_spec in Eab. rewrite final_stable; [rewrite La; fold va; rewrite Eab; reflexivity|].
-          intros o Hin. destruct (not_none_dec (wr o (SEatt w e))) as [E|E]; [left; exact E|right].
-          apply wr_eatt_inv in E. destruct E as [(k & cw & cr & ty & -> & Hk)|[->|[(f & ->)|(k & v & -> & Hk)]]].
-          -- rewrite (Hport _ _ _ _ Hin Hk), La. fold va. rewrite Eab. reflexivity.
+          + destruct (Hset _ _ Hin Hk) as (_ & _ & rq' & Eq' & [H|[H _]]); [|contradiction].
+            inversion Eq'; subst. congruence.
+        - apply opt_att_eqb_false in Eab. destruct (mem_key (edge_beta w e) (ska_of a b)) eqn:Esk.
+          + pose proof (mem_key_true _ _ Esk) as Esk'. apply in_skip_atts in Esk'. destruct Esk' as (cw & cr & i & Hp).
+            apply portal_in_pops in Hp. pose proof (portal_facts _ _ _ _ Hp) as (_ & _ & _ & ty & cs & -> & _).
+            apply (final_const D _ _ _ (OpenPortal (edge_beta w e) cw cr (Some ty))).
+            * exact Hp.
+            * apply Hport; [exact Hp|reflexivity].
+            * intros o Hin. destruct (not_none_dec (wr o (SEatt w e))) as [E|E]; [left; exact E|right].
+              apply wr_eatt_inv in E. destruct E as [(k' & cw' & cr' & ty' & -> & Hk)|[->|[(f & ->)|(k' & v & -> & Hk)]]].
+              -- apply Hport; assumption.
+              -- exfalso. eapply delete_wi_absurd; eauto.
+              -- exfalso. eapply Hnd; eauto.
+              -- destruct (Hset _ _ Hin Hk) as (_ & _ & rq' & Eq' & [H|[_ H]]); [|congruence].
+                 inversion Eq'; subst. congruence.
+          + apply Hsetmax. apply (inD_set_att a b Ha Hb). exists w, q. split; [exact Gb|]. right.
+            exists e, rq. repeat split; auto. }
+      destruct (nfind e (s_edges (bstore a w))) as [rp|] eqn:Ep.
+      2:{ apply Hkeep. intros f H. apply (inD_delete_edge a b Ha Hb) in H.
+          destruct H as (q' & rp & _ & H & _). congruence. }
+      destruct (recreated q rp rq) eqn:Erc.
+      + (* recreated without a value afterwards: DeleteEdge leaves the slot empty *)
+        assert (Hvb : vb = None).
+        { unfold recreated_with_value in Erw. rewrite Ep, Erc, andb_true_r in Erw. unfold vb.
+          destruct (nfind e (s_eatt q)); [discriminate|reflexivity]. }
+        rewrite Hvb. cbn [option_map].
+        apply (final_const D _ _ _ (DeleteEdge w (e_from rp) e)).
+        * apply (inD_delete_edge a b Ha Hb). exists q, rp. repeat split; auto. right. eauto.
+        * apply Hdel.
+        * intros o Hin. destruct (not_none_dec (wr o (SEatt w e))) as [E|E]; [left; exact E|right].
+          apply wr_eatt_inv in E. destruct E as [(k' & cw' & cr' & ty' & -> & Hk)|[->|[(f & ->)|(k' & v & -> & Hk)]]].
+          -- rewrite (Hport _ _ _ _ Hin Hk), Hvb. reflexivity.
           -- exfalso. eapply delete_wi_absurd; eauto.
-          -- exfalso. eapply Hnd; eauto.
-          -- destruct (Hset _ _ Hin Hk) as (_ & _ & _ & H & _). contradiction.
-        * apply opt_att_eqb_false in Eab. destruct (mem_key (edge_beta w e) (ska_of a b)) eqn:Esk; [|auto].
-          pose proof (mem_key_true _ _ Esk) as Esk'. apply in_skip_atts in Esk'. destruct Esk' as (cw & cr & i & Hp).
-          apply portal_in_pops in Hp. pose proof (portal_facts _ _ _ _ Hp) as (_ & _ & _ & ty & cs & -> & _).
-          apply (final_const D _ _ _ (OpenPortal (edge_beta w e) cw cr (Some ty))).
-          -- exact Hp.
-          -- apply Hport; [exact Hp|reflexivity].
-          -- intros o Hin. destruct (not_none_dec (wr o (SEatt w e))) as [E|E]; [left; exact E|right].
-             apply wr_eatt_inv in E. destruct E as [(k' & cw' & cr' & ty' & -> & Hk)|[->|[(f & ->)|(k' & v & -> & Hk)]]].
-             ++ apply Hport; assumption.
-             ++ exfalso. eapply delete_wi_absurd; eauto.
-             ++ exfalso. eapply Hnd; eauto.
-             ++ destruct (Hset _ _ Hin Hk) as (_ & _ & _ & _ & H). congruence.
-      + (* re-parented: DeleteEdge clears the slot, the exclusion says the diff re-sets it when needed *)
-        assert (Ga : exists p, get_store a w = Some p /\ bstore a w = p).
-        { unfold bstore in *. destruct (get_store a w) as [p|]; [eauto|cbn in Ep; discriminate]. }
-        destruct Ga as (p & Ga & Ebs). rewrite Ebs in *.
-        destruct (reparent_ok_spec a b Hrep w p q e rp rq Ga Gb (proj1 Hb)
-                    (proj1 (proj2 (Struct_store _ _ _ Hb Gb))) Ep Eq Hdiff) as [Hn|[Hne Hsk]].
-        * unfold vb. rewrite Hn. cbn [option_map].
-          apply (final_const D _ _ _ (DeleteEdge w (e_from rp) e)).
-          -- apply (inD_delete_edge a b Ha Hb). exists q, rp. rewrite Ebs. repeat split; auto.
-             right. exists rq. split; [exact Eq|]. congruence.
           -- apply Hdel.
-          -- intros o Hin. destruct (not_none_dec (wr o (SEatt w e))) as [E|E]; [left; exact E|right].
-             apply wr_eatt_inv in E. destruct E as [(k' & cw' & cr' & ty' & -> & Hk)|[->|[(f & ->)|(k' & v & -> & Hk)]]].
-             ++ rewrite (Hport _ _ _ _ Hin Hk). unfold vb. rewrite Hn. reflexivity.
-             ++ exfalso. eapply delete_wi_absurd; eauto.
-             ++ apply Hdel.
-             ++ destruct (Hset _ _ Hin Hk) as (-> & -> & _). cbn [wr]. unfold att_slot; cbn.
-                rewrite !N.eqb_refl. cbn. unfold vb. rewrite Hn. reflexivity.
-        * apply Hsetin; [unfold va, vb; rewrite ?Ebs; exact Hne|exact Hsk].
+          -- destruct (Hset _ _ Hin Hk) as (-> & -> & _). rewrite Hwset, Hvb. reflexivity.
+      + apply Hkeep. intros f H. apply (inD_delete_edge a b Ha Hb) in H.
+        destruct H as (q' & rp' & G & H1 & _ & H3). rewrite Gb in G. inversion G; subst q'.
+        rewrite Ep in H1. inversion H1; subst rp'.
+        destruct H3 as [H3|(rq' & H3 & H4)]; [congruence|]. rewrite Eq in H3. inversion H3; subst. congruence.
     - (* the edge does not exist afterwards *)
       assert (Hvb : vb = None).
       { unfold vb. destruct (nfind e (s_eatt q)) eqn:E; [|reflexivity]. exfalso.
@@ -1202,7 +1186,7 @@ Section Final.
         - rewrite (Hport _ _ _ _ Hin Hk), Hvb. reflexivity.
         - exfalso. eapply delete_wi_absurd; eauto.
         - apply Hdel.
-        - destruct (Hset _ _ Hin Hk) as (_ & _ & H & _). apply nmem_true in H. destruct H as [x Hx]. congruence. }
+        - destruct (Hset _ _ Hin Hk) as (_ & _ & rq' & H & _). congruence. }
       destruct va as [x|] eqn:Eva.
       + assert (Hown : nmem e (s_edges (bstore a w)) = true).
         { destruct (bstore_owned a w Oa) as [_ H]. apply H. apply nmem_true. exists x. exact Eva. }
